@@ -248,7 +248,7 @@ func oddSkeleton(r *rng) string {
 		return []string{"", "", " // note", " /* multi\n   line */", " // \xe2\x80\xa8", " // a  \t b"}[r.intn(6)]
 	}
 	code := func() string {
-		return []string{"200", "200", "404", "100", "599", "204"}[r.intn(6)]
+		return []string{"200", "200", "404", "100", "599", "204", "200", "404", "20:", "40=", "10A", "600", "099", "2000", "59/"}[r.intn(15)]
 	}
 	for i, n := 0, 1+r.intn(3); i < n; i++ {
 		p := oddPath(r)
